@@ -76,6 +76,14 @@ SEEDS = {
         "nodes": {16: (0, (0, 2, 0, 3)), 32: (1, (0, 2, 1, 4)), 48: (2, (1, 3, 1, 3)), 64: (1, (2, 4, 3, 6))},
         "edges": [(16, 32), (32, 48), (16, 64)],
     },
+    # node ids whose pair keys / products wrap in 32 bits: (65537, 7) and (1, 7) coincide when a
+    # pair is packed as a * 2**16 + b modulo 2**32; 65536 * 131072 = 0 modulo 2**32
+    "u32ids": {
+        "nodes": {65537: (0, (0, 2, 0, 3)), 1: (0, (2, 4, 0, 3)), 300: (0, (0, 2, 3, 6)),
+                  7: (1, (1, 3, 0, 3)), 65535: (1, (0, 2, 4, 6)),
+                  65536: (2, (1, 3, 1, 4)), 131072: (3, (1, 3, 2, 5))},
+        "edges": [(65537, 7), (300, 65535), (7, 65536), (65536, 131072)],
+    },
     # two divisions side by side (a refusal in one lineage while a stroke overwrites
     # both daughters of the other)
     "twodiv": {
@@ -89,6 +97,31 @@ SEEDS = {
         },
         "edges": [(1, 2), (1, 3), (4, 5), (4, 6)],
     },
+    # both daughters of a division divide again (a walk that keeps one pending daughter per
+    # division loses a subtree); 8 nodes, 4 frames
+    "nested": {
+        "nodes": {
+            1: (0, (1, 3, 2, 4)),
+            2: (1, (1, 3, 1, 4)),
+            3: (2, (0, 2, 0, 3)),
+            4: (2, (2, 4, 3, 6)),
+            5: (3, (0, 2, 0, 2)),
+            6: (3, (0, 2, 2, 4)),
+            7: (3, (2, 4, 2, 4)),
+            8: (3, (2, 4, 4, 6)),
+        },
+        "edges": [(1, 2), (2, 3), (2, 4), (3, 5), (3, 6), (4, 7), (4, 8)],
+    },
+    # for the 65-frame world: a track through the first and the last frames, a second one in a corner
+    "movie": {
+        "nodes": {1: (0, (0, 2, 0, 2)), 2: (1, (0, 2, 1, 3)), 3: (63, (1, 3, 1, 3)), 4: (64, (1, 3, 62, 65)), 5: (0, (60, 64, 60, 65))},
+        "edges": [(1, 2), (2, 3), (3, 4)],
+    },
+    # three unconnected nodes in consecutive frames
+    "iso3": {
+        "nodes": {1: (0, (0, 2, 0, 2)), 2: (1, (0, 2, 1, 3)), 3: (2, (1, 3, 1, 3))},
+        "edges": [],
+    },
     "fix6": {
         "nodes": {
             1: (0, (1, 3, 2, 4)),
@@ -101,6 +134,9 @@ SEEDS = {
         "edges": [(1, 2), (1, 3), (3, 4), (4, 5)],
     },
 }
+
+# a chain of 1100 nodes (longer than the interpreter's recursion limit), one node per frame
+SEEDS["long"] = {"nodes": {i: (i - 1, (0, 2, 0, 2)) for i in range(1, 1101)}, "edges": [(i, i + 1) for i in range(1, 1100)]}
 
 # anisotropic scales are chosen with a voxel size != 1, so that "area" and "pixel count"
 # cannot be confused
@@ -120,6 +156,9 @@ WORLDS = {
     # tracks that went through save_tracks / load_tracks before the session starts
     "noseg-2d-reloaded": dict(ndim=3, seg=False, scale=None, pos="single", extra=[], custom=True, ids="compute", reload=True),
     "seg-2d-reloaded": dict(ndim=3, seg=True, scale=[1.0, 2.0, 0.75], pos="single", extra=["iou"], custom=False, ids="compute", reload=True),
+    # a movie that holds one complete 64 x 64 x 64 chunk of the GEFF exporter (and partial ones next to it)
+    "seg-2d-movie": dict(ndim=3, seg=True, scale=None, pos="single", extra=[], custom=False, ids="compute", T=65, shape=(64, 65)),
+    "noseg-2d-long": dict(ndim=3, seg=False, scale=None, pos="single", extra=[], custom=False, ids="compute", T=1100),
     "noseg-3d": dict(ndim=4, seg=False, scale=[1.0, 2.0, 1.0, 0.75], pos="single", extra=[], custom=True, ids="compute"),
     "noseg-2d-axes": dict(ndim=3, seg=False, scale=None, pos="axes", extra=[], custom=True, ids="compute"),
     "seg-2d": dict(ndim=3, seg=True, scale=None, pos="single", extra=["iou"], custom=True, ids="compute"),
@@ -158,7 +197,13 @@ def world(name: str) -> dict:
 
 
 def frame_shape(w):
+    if w.get("shape"):
+        return tuple(w["shape"])
     return (H, W) if w["ndim"] == 3 else (D, H, W)
+
+
+def nframes(w):
+    return w.get("T", T)
 
 
 def rect_pixels(w, t, rect):
@@ -206,7 +251,7 @@ def make_graph(w, seed) -> tuple[nx.DiGraph, np.ndarray | None]:
     g = nx.DiGraph()
     seg = None
     if w["seg"]:
-        seg = np.zeros((T, *frame_shape(w)), dtype=w.get("dtype", "int32"))
+        seg = np.zeros((nframes(w), *frame_shape(w)), dtype=w.get("dtype", "int32"))
     tkey = w["keys"]["time"]
     for n, (t, rect) in seed["nodes"].items():
         attrs = {tkey: t}
@@ -233,7 +278,7 @@ def make_graph(w, seed) -> tuple[nx.DiGraph, np.ndarray | None]:
         big = w["ids"] == "givenbig"  # track ids crossing 255, lineage ids crossing 65535
         for i, s in enumerate(sorted(segments(g), key=lambda s: min(s))):
             for n in s:
-                g.nodes[n][w["keys"]["track"]] = i if zero else (3 * i + 253 if big else 3 * i + 2)
+                g.nodes[n][w["keys"]["track"]] = i if zero else (3 * i + 254 if big else 3 * i + 2)
         for j, c in enumerate(sorted(components(g), key=lambda s: min(s))):
             for n in c:
                 g.nodes[n][w["keys"]["lineage"]] = j if zero else (2 * j + 65534 if big else 2 * j + 5)
